@@ -488,6 +488,9 @@ func NewTimer(d time.Duration) *time.Timer {
 	return t
 }
 
+// After is time.After(d): a timer that is never stopped.
+func After(d time.Duration) <-chan time.Time { return NewTimer(d).C }
+
 // TimerStop is t.Stop().
 func TimerStop(t *time.Timer) bool {
 	s := Cur
